@@ -253,6 +253,16 @@ func dischargeOne(ob *Oblig, mode string, solvers []string, timeout time.Duratio
 		}
 		return
 	}
+	// a handful of concrete sample points first: a wrong program usually fails on one of them at once
+	// (the point found is then replayed natively); passing samples prove nothing and the solver decides
+	if ob.Kind != "reach" {
+		if m := concreteSearch(ob, 6, runSeed); m != nil {
+			ob.Verdict = "refuted"
+			ob.Solver = "concrete-sample"
+			ob.Model = m
+			return
+		}
+	}
 	var script string
 	var vars []*Term
 	if mode == "int" {
